@@ -792,7 +792,7 @@ fn var_case<C: Ck>(w: u32, h: u32, seed: u64, rep: &mut Report) {
         let mut sampled = false;
         for rot in 0..4u8 {
             let (lw, lh) = geo.logical(rot);
-            let mut do_call = |chk: &mut Chk, rep: &mut Report, backing: &mut Vec<u8>, pts: &[(i32, i32, u8)], via_iter: bool, exposed: &mut usize| {
+            let do_call = |chk: &mut Chk, rep: &mut Report, backing: &mut Vec<u8>, pts: &[(i32, i32, u8)], via_iter: bool, exposed: &mut usize| {
                 let o = var_call::<C>(&geo, rot, backing, pts, via_iter);
                 if o.rejected {
                     rep.count("vardisplay_rejected_not_a_case", 1);
